@@ -587,3 +587,170 @@ Proof.
   rewrite Hmok. cbn [negb]. rewrite Huri, Hvcode.
   rewrite (slice_chk_tail (print_head g) extra (length (print_head g)) eq_refl). cbn [obind]. reflexivity.
 Qed.
+
+(** * Where a printed head ends *)
+
+Lemma bl_line : forall x ir rest, forallb no_crlf x = true -> (x <> [] \/ ir = false) ->
+  bl_end ir (x ++ CR :: LF :: rest) = option_map (fun k => length x + 2 + k) (bl_end true rest).
+Proof.
+  induction x as [|c x IH]; intros ir rest Hx Hor.
+  - destruct Hor as [Hor|Hor]; [contradiction|]. subst ir. cbn [app length].
+    change (bl_end false (CR :: LF :: rest)) with (option_map S (option_map S (bl_end true rest))).
+    destruct (bl_end true rest); reflexivity.
+  - cbn [forallb] in Hx. apply andb_true_iff in Hx as [Hc Hx]. destruct (no_crlf_spec _ Hc) as [H1 H2].
+    cbn [app bl_end]. rewrite H1, H2. rewrite (IH false rest Hx (or_intror eq_refl)).
+    destruct (bl_end true rest); cbn [option_map length]; [f_equal; lia|reflexivity].
+Qed.
+
+Lemma hline_body_shape h : hlines_ok [h] = true ->
+  let x := hl_name h ++ [COLON] ++ repeat SP (hl_sp h) ++ hl_value h in
+  print_hline h = x ++ [CR; LF] /\ x <> [] /\ forallb no_crlf x = true.
+Proof.
+  intros H x. cbn [hlines_ok forallb] in H. rewrite andb_true_r in H. apply andb_true_iff in H as [Hn Hv].
+  split; [unfold print_hline, crlf, x; rewrite <- !app_assoc; reflexivity|].
+  unfold name_ok in Hn. apply andb_true_iff in Hn as [Hn _]. apply andb_true_iff in Hn as [Hnn Hnt].
+  split; [subst x; destruct (hl_name h); [discriminate|discriminate]|].
+  subst x. rewrite !forallb_app. rewrite (forallb_imp tchar no_crlf _ tchar_no_crlf Hnt).
+  rewrite forallb_repeat by reflexivity. rewrite (value_ok_no_crlf _ Hv). reflexivity.
+Qed.
+
+Lemma bl_block : forall hs rest, hlines_ok hs = true ->
+  bl_end true ((concat (map print_hline hs) ++ [CR; LF]) ++ rest) = Some (length (concat (map print_hline hs) ++ [CR; LF])).
+Proof.
+  induction hs as [|h hs IH]; intros rest Hok; [reflexivity|].
+  cbn [hlines_ok forallb] in Hok. apply andb_true_iff in Hok as [Hh Hok].
+  assert (Hh1 : hlines_ok [h] = true) by (cbn [hlines_ok forallb]; rewrite Hh; reflexivity).
+  destruct (hline_body_shape h Hh1) as [Hp [Hne Hx]].
+  set (x := hl_name h ++ [COLON] ++ repeat SP (hl_sp h) ++ hl_value h) in *.
+  cbn [map concat]. rewrite Hp.
+  replace (((x ++ [CR; LF]) ++ concat (map print_hline hs)) ++ [CR; LF]) with (x ++ CR :: LF :: (concat (map print_hline hs) ++ [CR; LF]))
+    by (rewrite <- !app_assoc; reflexivity).
+  rewrite <- app_assoc. cbn [app]. rewrite bl_line by (try assumption; left; exact Hne).
+  fold (hlines_ok hs) in Hok. rewrite (IH rest Hok). cbn [option_map]. f_equal.
+  rewrite !app_length. cbn [length]. rewrite !app_length. cbn [length]. lia.
+Qed.
+
+Lemma blank_end_print g rest : greq_facts g -> blank_end (print_head g ++ rest) = Some (length (print_head g)).
+Proof.
+  intros F. destruct F as [Hstart Hmlen Hmtok Htnon Htplain Hlines Hnodup].
+  destruct (version_shape g) as [Hvc [Hvl _]].
+  unfold blank_end. rewrite print_head_shape, print_head_length.
+  set (x := g_method g ++ SP :: g_target g ++ SP :: g_version g).
+  replace (g_method g ++ SP :: g_target g ++ SP :: g_version g ++ CR :: LF :: (concat (map print_hline (g_headers g)) ++ [CR; LF]) ++ rest)
+    with (x ++ CR :: LF :: (concat (map print_hline (g_headers g)) ++ [CR; LF]) ++ rest)
+    by (unfold x; repeat (progress (try rewrite <- !app_assoc; cbn [app])); reflexivity).
+  rewrite bl_line.
+  - rewrite (bl_block _ rest Hlines). cbn [option_map]. f_equal. unfold x.
+    rewrite !app_length. cbn [length]. rewrite !app_length. cbn [length]. rewrite Hvl. lia.
+  - unfold x. rewrite forallb_app. rewrite (forallb_imp tchar no_crlf _ tchar_no_crlf Hmtok). cbn [forallb andb].
+    rewrite forallb_app. rewrite (forallb_imp plain no_crlf _ plain_no_crlf Htplain). cbn [forallb]. rewrite Hvc. reflexivity.
+  - left. unfold x. destruct (g_method g); discriminate.
+Qed.
+
+Lemma valid_start_print g rest : greq_facts g -> valid_start (print_head g ++ rest) = true.
+Proof.
+  intros F. rewrite print_head_shape. apply valid_start_app. exact (gf_start g F).
+Qed.
+
+(** * Head, then body *)
+
+Lemma serve_head grow : grow_ok grow -> forall mode https dh max_len limit stream sched,
+  sched_pos sched ->
+  let d := Nat.min (sum_sched sched) (length stream) in
+  match head_spec max_len (firstn d stream) with
+  | Ok k => exists c r', k <= c /\ c <= max_len /\ rd_at stream d c r' /\
+      serve grow mode https dh max_len limit stream sched =
+      obind (parse_request https dh (firstn c stream)) (fun q =>
+        match read_to_bytes grow mode (q_early q) (body_length (q_method q) (q_headers q)) limit r' with
+        | Ok (b, r'') => Ok (mk_served q (Ok b) (length stream - length (rd_data r'')))
+        | Err e => Ok (mk_served q (Err e) 0)
+        | Panic => Panic
+        end)
+  | Err e => serve grow mode https dh max_len limit stream sched = Err e
+  | Panic => False
+  end.
+Proof.
+  intros Hg mode https dh max_len limit stream sched Hp d.
+  pose proof (read_headers_exact grow Hg (S (length stream)) mode max_len stream d 0 512 (mk_reader stream sched)
+                (rd_at_start stream sched Hp)) as H.
+  cbn [firstn] in H. specialize (H ltac:(lia) ltac:(lia) eq_refl ltac:(lia)).
+  unfold serve, read_request. cbn [rd_data].
+  destruct (head_spec max_len (firstn d stream)) as [k|e|]; [|rewrite H; reflexivity|exact H].
+  destruct H as [c [r' [H [Hk [Hc Hat]]]]]. exists c, r'. rewrite H. cbn [obind fst snd].
+  split; [exact Hk|]. split; [exact Hc|]. split; [exact Hat|].
+  destruct (parse_request https dh (firstn c stream)); reflexivity.
+Qed.
+
+Lemma expect_some https dh limit g rest e : expect https dh limit g rest = Some e ->
+  exists host auth path query,
+    g_host dh g = Some host /\ parse_uri https host (g_target g) = Some (auth, path, query) /\
+    e = mk_expected (g_method g) path query (if g_v11 g then 11%N else 10%N) (g_hmap g) auth
+          (firstn (N.to_nat (N.min (body_length (g_method g) (g_hmap g)) limit)) rest).
+Proof.
+  unfold expect. destruct (g_host dh g) as [host|] eqn:Eh; [|discriminate].
+  destruct (parse_uri https host (g_target g)) as [[[auth path] query]|] eqn:Eu; [|discriminate].
+  intros H. inversion H. exists host, auth, path, query. split; [reflexivity|]. split; [exact Eu|reflexivity].
+Qed.
+
+Lemma parse_print_lemma : forall grow mode https dh max_len limit g rest sched e,
+  grow_ok grow -> sched_pos sched -> greq_ok g = true -> length (print_head g) <= max_len ->
+  expect https dh limit g rest = Some e ->
+  N.to_nat (N.min (body_length (g_method g) (g_hmap g)) limit) <= length rest ->
+  length (print_head g) + N.to_nat (N.min (body_length (g_method g) (g_hmap g)) limit) <= sum_sched sched ->
+  exists sv, serve grow mode https dh max_len limit (print_head g ++ rest) sched = Ok sv /\ observed sv = Some e.
+Proof.
+  intros grow mode https dh max_len limit g rest sched e Hg Hp Hok Hmax Hex Hneed1 Hneed2.
+  destruct (expect_some _ _ _ _ _ _ Hex) as [host [auth [path [query [Hhost [Huri He]]]]]].
+  pose proof (greq_ok_facts g Hok) as F.
+  set (need := N.to_nat (N.min (body_length (g_method g) (g_hmap g)) limit)) in *.
+  set (stream := print_head g ++ rest). set (H := length (print_head g)) in *.
+  set (d := Nat.min (sum_sched sched) (length stream)).
+  assert (Hls : length stream = H + length rest) by (unfold stream; rewrite app_length; reflexivity).
+  assert (Hd : H + need <= d) by lia.
+  assert (HdS : d <= length stream) by lia.
+  pose proof (blank_end_print g rest F) as Hbe. fold stream in Hbe. fold H in Hbe.
+  assert (Hhs : head_spec max_len (firstn d stream) = Ok H).
+  { unfold head_spec, blank_end in *. rewrite (bl_end_firstn false stream H d Hbe) by lia.
+    destruct (Nat.leb H max_len) eqn:E; [|apply Nat.leb_gt in E; lia].
+    rewrite valid_start_prefix_stable; [unfold stream; rewrite (valid_start_print g rest F); reflexivity|exact HdS|].
+    right. rewrite ctn_firstn, Hbe. apply Nat.leb_le. lia. }
+  pose proof (serve_head grow Hg mode https dh max_len limit stream sched Hp) as Hs. cbv zeta in Hs. fold d in Hs.
+  rewrite Hhs in Hs. destruct Hs as [c [r' [Hc1 [Hc2 [Hat Hs]]]]].
+  assert (Hcd : c <= d) by (destruct Hat as [_ [_ [? _]]]; assumption).
+  assert (Hbuf : firstn c stream = print_head g ++ firstn (c - H) rest).
+  { unfold stream. rewrite firstn_app. fold H. rewrite firstn_all2 by (fold H; lia). reflexivity. }
+  rewrite Hbuf in Hs. rewrite (parse_request_print https dh g _ host auth path query Hok Hhost Huri) in Hs.
+  cbn [obind q_early q_method q_headers] in Hs.
+  pose proof (read_to_bytes_exact grow Hg mode (firstn (c - H) rest) (body_length (g_method g) (g_hmap g)) limit stream d c r' Hat) as Hb.
+  unfold body_spec in Hb. fold need in Hb.
+  assert (Hel : length (firstn (c - H) rest) = c - H) by (rewrite firstn_length; lia).
+  assert (Hdl : length (firstn (d - c) (skipn c stream)) = d - c) by (rewrite firstn_length, skipn_length; lia).
+  rewrite Hel, Hdl in Hb.
+  destruct (Nat.leb need (c - H + (d - c))) eqn:E; [|apply Nat.leb_gt in E; lia].
+  destruct Hb as [r'' [Hb _]]. rewrite Hb in Hs.
+  eexists. split; [exact Hs|]. unfold observed. cbn [sv_body sv_request q_method q_path q_query q_version q_headers q_authority].
+  rewrite He. f_equal. f_equal.
+  rewrite firstn_app_firstn by (rewrite Hel; lia).
+  assert (Hsk : skipn c stream = skipn (c - H) rest).
+  { unfold stream. rewrite skipn_app. fold H. rewrite skipn_all2 by (fold H; lia). reflexivity. }
+  rewrite Hsk, firstn_skipn. reflexivity.
+Qed.
+
+Lemma schedule_independent_lemma : forall grow1 grow2 mode1 mode2 https dh max_len limit g rest sched1 sched2,
+  grow_ok grow1 -> grow_ok grow2 -> sched_pos sched1 -> sched_pos sched2 ->
+  greq_ok g = true -> length (print_head g) <= max_len ->
+  expect https dh limit g rest <> None ->
+  N.to_nat (N.min (body_length (g_method g) (g_hmap g)) limit) <= length rest ->
+  length (print_head g) + N.to_nat (N.min (body_length (g_method g) (g_hmap g)) limit) <= sum_sched sched1 ->
+  length (print_head g) + N.to_nat (N.min (body_length (g_method g) (g_hmap g)) limit) <= sum_sched sched2 ->
+  exists sv1 sv2,
+    serve grow1 mode1 https dh max_len limit (print_head g ++ rest) sched1 = Ok sv1 /\
+    serve grow2 mode2 https dh max_len limit (print_head g ++ rest) sched2 = Ok sv2 /\
+    observed sv1 = observed sv2 /\ observed sv1 <> None.
+Proof.
+  intros grow1 grow2 mode1 mode2 https dh max_len limit g rest sched1 sched2 Hg1 Hg2 Hp1 Hp2 Hok Hmax Hex Hn H1 H2.
+  destruct (expect https dh limit g rest) as [e|] eqn:He; [|contradiction].
+  destruct (parse_print_lemma grow1 mode1 https dh max_len limit g rest sched1 e Hg1 Hp1 Hok Hmax He Hn H1) as [sv1 [Hs1 Ho1]].
+  destruct (parse_print_lemma grow2 mode2 https dh max_len limit g rest sched2 e Hg2 Hp2 Hok Hmax He Hn H2) as [sv2 [Hs2 Ho2]].
+  exists sv1, sv2. repeat split; try assumption; [congruence|rewrite Ho1; discriminate].
+Qed.
